@@ -1,6 +1,7 @@
 SPECIFICATION SimSpec
 CONSTANTS
   WorkerCpus <- V_Workers
+  LateWorkers <- V_Late
   WorkerGroup <- V_Groups
   WorkerLife <- V_Life
   MaxTicks = 0
